@@ -5,6 +5,10 @@ V = os.path.dirname(os.path.dirname(os.path.abspath(__file__)))
 
 # id -> (technique, level text, level note, design ref)
 CHECKS = {
+ "C19": ("generated cases run in child processes whose stdout/stderr are pipes; a gated Display fragment yields to a contender thread in the middle of a formatted write (harness-owned scheduling point) + free-running multi-thread stress; record-grammar oracle on the bytes read from the pipe; register window check for the global colour choice",
+         "Generated-input search over (mode, stream, API, thread count, fragment count, gate position); the schedule-dependence is attacked by construction: the gate makes a second thread attempt a complete print while a formatted write is in progress, so a stream that does not hold its lock for the whole call interleaves deterministically. The oracle is the record grammar of the pipe contents (every record contiguous, complete, in per-thread order, payload stripped/verbatim as the mode requires).",
+         "Trusted: OS pipes preserve write order; the 8 ms gate time-out can hide but never create a violation; only one scheduling point per gated print is owned, other interleavings come from stress; weaker memory orderings of the global register are not observable on x86 (stated limit).",
+         "DESIGN.md §4-C19"),
  "C18": ("proptest SGR streams x chunkings x drivers against a recording console and scripted faulty consoles, on the working-tree source of the Windows-only stream included by path; oracle = reference SGR interpreter with the stated colour reduction; exhaustive pairs of attribute groups",
          "Model-based generated-input search: the calls received by a recording implementation of anstyle_wincon::WinconStream, flattened to (fg, bg, byte), must equal the reference terminal's per-character styles reduced to the 16-colour palette; no escape byte may be handed over; with scripted short counts/errors write_all and write! must hand everything over exactly once or fail with the injected kind.",
          "Trusted: shims of crate::stream::{AsLockedWrite, IsTerminal} (the module is not built by its own crate on this platform), R-VT/R-SGR. write() against short counts/errors is an open known finding (F14, F14b), excluded by construction and replayed as fixed inputs.",
